@@ -175,13 +175,16 @@ TimedOut(t) == RT = "always" \/ ~everconn[t]
 
 ReplyList(t, how) ==
     /\ UNCHANGED hvars /\ EnvOK /\ pc[t] = "atList"
-    /\ how # "ok" => Fault
-    /\ how = "ok" => UNCHANGED nfault
-    /\ CASE how = "ok" ->
+    /\ how \notin {"ok", "emptyrev"} => Fault
+    /\ how \in {"ok", "emptyrev"} => UNCHANGED nfault
+    \* "emptyrev": what a KDD backend answers for an EMPTY collection - no items and revision "" / "0" although the
+    \* datastore has been written before; the cache cannot watch from it and polls
+    /\ how = "emptyrev" => store[t] = ZeroK
+    /\ CASE how \in {"ok", "emptyrev"} ->
               LET c0 == [Local(t) EXCEPT !.old = res[t], !.res = ZeroK]
                   c1 == IF c0.cstat = "wait" THEN StSend(c0, t, "resync") ELSE c0
                   c2 == Finish(HandleItems(c1, t, { k \in K : store[t][k] # 0 }), t)
-                  zero == nrev[t] = 0
+                  zero == nrev[t] = 0 \/ how = "emptyrev"
                   c3 == IF zero THEN [c2 EXCEPT !.crev = 0] ELSE [c2 EXCEPT !.crev = nrev[t], !.ecount = 0]
               IN /\ Commit(t, c3)
                  /\ conn' = [conn EXCEPT ![t] = TRUE] /\ inst' = [inst EXCEPT ![t] = TRUE]
@@ -207,8 +210,8 @@ ReplyList(t, how) ==
                            /\ lpoll' = [lpoll EXCEPT ![t] = FALSE] /\ wpoll' = [wpoll EXCEPT ![t] = FALSE]
                    ELSE UNCHANGED <<rq, cstat, res, crev, ecount, conn, lpoll, wpoll>>
               /\ pc' = [pc EXCEPT ![t] = "sync"] /\ UNCHANGED full
-    /\ everconn' = [everconn EXCEPT ![t] = @ \/ how \in {"ok", "notinstalled", "expired"}]
-    /\ P!ListAnswered(t, how \in {"ok", "notinstalled"})
+    /\ everconn' = [everconn EXCEPT ![t] = @ \/ how \in {"ok", "emptyrev", "notinstalled", "expired"}]
+    /\ P!ListAnswered(t, how \in {"ok", "emptyrev", "notinstalled"})
     /\ Tick
     /\ UNCHANGED <<wpos, nrev, evlog, cstats, wsstat, started, nmut, bad>>
 
@@ -277,7 +280,7 @@ WEvent(t, kind) ==
     /\ UNCHANGED <<cstat, res, inst, lpoll, wpoll, conn, everconn, wpos, nrev, evlog, rq, cstats, wsstat, started, nmut, bad,
                    store, view, status, listed>>
 
-ListHows == {"ok", "err", "notinstalled", "expired"}
+ListHows == {"ok", "emptyrev", "err", "notinstalled", "expired"}
 WatchHows == {"ok", "err", "expired", "refused", "notsupported"}
 WKinds == {"bookmark", "expired", "error", "closed"}
 
@@ -297,7 +300,11 @@ Spec == Init /\ [][Next]_vars
 \* ---- I => P ------------------------------------------------------------------------------------------------------------
 PropertyHolds == ~bad
 \* the environment is quiet: every watch open and drained, nothing in flight
-Quiet == Stable /\ rq = <<>> /\ ubuf = <<>> /\ held = "no" /\ \A t \in T : pc[t] = "watching" /\ Pending(t) = {}
+\* a type is quiet when its watch is open and drained, or when it is polling an empty collection that answers with a
+\* zero revision (no watch can be opened from that; the last List showed exactly the present - empty - content)
+PollQuiet(t) == pc[t] = "atList" /\ lpoll[t] /\ store[t] = ZeroK
+Quiet == Stable /\ rq = <<>> /\ ubuf = <<>> /\ held = "no"
+         /\ \A t \in T : (pc[t] = "watching" /\ Pending(t) = {}) \/ PollQuiet(t)
 Converged == Quiet => P!ConvergedOK
 \* implementation sanity: the cache's map is what the stream said, once the results channel is drained
 CacheIsView == (Stable /\ rq = <<>> /\ ubuf = <<>>) => \A t \in T : res[t] = view[t]
